@@ -445,6 +445,17 @@ def _repr(ex, st, args, kwargs, k, where):
 
 @method("VBytes", "decode")
 def _b_decode(ex, st, base, args, kwargs, k, where):
+    codec = args[0] if args else kwargs.get("encoding")
+    if codec is not None:
+        lit = getattr(codec, "lit", None)
+        if lit is None:
+            raise Unsupported(f"bytes.decode with a computed codec at {where}")
+        if lit.lower().replace("_", "-") not in ("utf8", "utf-8"):
+            # another codec: an unrelated uninterpreted decoding (may raise UnicodeDecodeError)
+            nm = re.sub(r"[^A-Za-z0-9]", "_", lit.lower())
+            ok = _ufun(ex, f"valid_{nm}", [SEQI], BOOL, base.t)
+            outs = ex.raise_(st.assume(Not(ok)), "UnicodeDecodeError", where)
+            return outs + k(st.assume(ok), VStr(_ufun(ex, f"decode_{nm}", [SEQI], STR, base.t)))
     valid = _ufun(ex, "valid_utf8", [SEQI], BOOL, base.t)
     outs = ex.raise_(st.assume(Not(valid)), "UnicodeDecodeError", where)
     s2 = st.assume(valid)
